@@ -1,0 +1,85 @@
+//go:build verif
+
+// Contracts for the govc verifier (see /verif/DESIGN.md). Comment-only file: with the
+// "verif" build tag off it is not compiled; with it on it contains only the package clause.
+
+package fusemanager
+
+// Ghost view of the manager: `served` = keys of fsMap (live mounts), `fsOf` = the filesystem instance
+// that mounted each of them, `stored` = mountpoints recorded in the bolt store.
+//@ ghost served map[string]bool
+//@ ghost stored map[string]bool
+//@ ghost fsOf map[string]snapshot.FileSystem
+
+// fsMap is a sync.Map keyed by mountpoint (external, assumed contracts over the ghost view).
+//@ func sync.(*Map).Load
+//@   trusted
+//@   ensures ok <==> asString(key) in served
+//@   ensures ok ==> value == fsOf[asString(key)] && value != nil && implements(value, "snapshot.FileSystem")
+//@ func sync.(*Map).Store
+//@   trusted
+//@   modifies served[*], fsOf[*]
+//@   ensures asString(key) in served && fsOf[asString(key)] == value
+//@   ensures forall k string :: k != asString(key) ==> ((k in served <==> k in old(served)) && fsOf[k] == old(fsOf[k]))
+//@ func sync.(*Map).Delete
+//@   trusted
+//@   modifies served[*]
+//@   ensures !(asString(key) in served)
+//@   ensures forall k string :: k != asString(key) ==> (k in served <==> k in old(served))
+
+// the persistent record: bolt updates are assumed not to fail (bolt faults are outside C17's quantifier; note that
+// Mount and Unmount ignore the error these two functions return)
+//@ func (fm *Server) storeFuseInfo
+//@   trusted
+//@   requires fuseInfo != nil
+//@   modifies stored[*]
+//@   ensures fuseInfo.Mountpoint in stored
+//@   ensures forall k string :: k != fuseInfo.Mountpoint ==> (k in stored <==> k in old(stored))
+//@ func (fm *Server) removeFuseInfo
+//@   trusted
+//@   requires fuseInfo != nil
+//@   modifies stored[*]
+//@   ensures !(fuseInfo.Mountpoint in stored)
+//@   ensures forall k string :: k != fuseInfo.Mountpoint ==> (k in stored <==> k in old(stored))
+
+// a filesystem instance is asked to mount a mountpoint only if nobody serves it, and to check / unmount only what it mounted itself
+//@ func interface snapshot.FileSystem.Mount
+//@   requires !(mountpoint in served)
+//@ func interface snapshot.FileSystem.Check
+//@   requires mountpoint in served && fsOf[mountpoint] == self
+//@ func interface snapshot.FileSystem.Unmount
+//@   requires mountpoint in served && fsOf[mountpoint] == self
+
+//@ type Server
+//@   guards lock: status, curFs, root, config, curCRIServer
+//@   invariant[C17] lock: self.status == FuseManagerReady ==> self.curFs != nil && self.config != nil
+
+//@ func (fm *Server) Init
+//@   props C17
+//@   requires req != nil && fm.dbOpener != nil
+//@   requires forall i int :: 0 <= i && i < len(configFuncs) ==> configFuncs[i] != nil
+//@   ensures[C17] err == nil ==> fm.status == FuseManagerReady && fm.curFs != nil
+//@ func (fm *Server) mount
+//@   props C17
+//@   requires held(fm.lock)
+//@   requires fm.status == FuseManagerReady
+//@   ensures[C17] result == nil ==> mountpoint in served
+//@   ensures[C17] old(mountpoint in served) ==> result == nil && fsOf[mountpoint] == old(fsOf[mountpoint])
+//@   ensures[C17] result == nil && !old(mountpoint in served) ==> fsOf[mountpoint] == fm.curFs
+//@   ensures[C17] forall k string :: k != mountpoint ==> ((k in served <==> k in old(served)) && fsOf[k] == old(fsOf[k]))
+//@ func (fm *Server) Mount
+//@   props C17
+//@   requires req != nil
+//@   ensures[C17] locked(fm.status) != FuseManagerReady ==> err != nil
+//@   ensures[C17] err == nil ==> req.Mountpoint in served
+//@ func (fm *Server) Check
+//@   props C17
+//@   requires req != nil
+//@   ensures[C17] locked(fm.status) != FuseManagerReady ==> err != nil
+//@   ensures[C17] !(req.Mountpoint in old(served)) ==> err != nil
+//@ func (fm *Server) Unmount
+//@   props C17
+//@   requires req != nil
+//@   ensures[C17] locked(fm.status) != FuseManagerReady ==> err != nil
+//@   ensures[C17] err == nil && old(req.Mountpoint in served) ==> !(req.Mountpoint in served) && !(req.Mountpoint in stored)
+//@   ensures[C17] forall k string :: k != req.Mountpoint ==> ((k in served <==> k in old(served)) && (k in stored <==> k in old(stored)))
